@@ -103,6 +103,9 @@ type Task struct {
 	// user data for harnesses
 	Tag any
 
+	// set when this task was released as the sending side of an unbuffered rendezvous
+	pairedSend bool
+
 	lastP struct {
 		addr  uintptr
 		clk   uint32
@@ -726,6 +729,18 @@ func (s *Sim) release(t *Task, arm int) int {
 	t.state = tsRunning
 	s.running = t
 	if partner != nil {
+		// which side sends? it parks again right after the native send (AfterSend), so that the
+		// two segments after the rendezvous do not run in parallel
+		sender := partner
+		switch g.kind {
+		case gSend:
+			sender = t
+		case gSelect:
+			if arm >= 0 && g.cases[arm].send {
+				sender = t
+			}
+		}
+		sender.pairedSend = true
 		partner.state = tsRunning
 		s.pair[0], s.pair[1] = t, partner
 		partner.wake <- wakeMsg{arm: parm}
@@ -802,6 +817,22 @@ func BeforeSend(site int32, ch any) {
 		p = v.Pointer()
 	}
 	s.park(gate{kind: gSend, site: site, ch: v, chp: p})
+}
+
+// AfterSend follows every instrumented send. After an unbuffered rendezvous the sender parks
+// here at an always-ready gate: the receiver's segment runs alone until its next gate, the
+// sender's continues when the scheduler picks it (any interleaving Go allows, but serialised).
+func AfterSend(site int32) {
+	s := cur
+	if s == nil || s.tearing {
+		return
+	}
+	t := s.caller()
+	if t == nil || !t.pairedSend {
+		return
+	}
+	t.pairedSend = false
+	s.park(gate{kind: gYield, site: site})
 }
 
 // RC parks until a receive from ch cannot block, then returns ch.
